@@ -143,8 +143,16 @@ func parseLopts(m map[string]string) *mcap.LexerOptions {
 			} else {
 				data, err = io.ReadAll(ar.Data())
 			}
-			comp, cerr := ar.ComputedCRC()
-			parsed, perr := ar.ParsedCRC()
+			var comp, parsed uint32
+			var cerr, perr error
+			if cb == "fullrev" {
+				// the other legal call order: stored CRC first, computed CRC second
+				parsed, perr = ar.ParsedCRC()
+				comp, cerr = ar.ComputedCRC()
+			} else {
+				comp, cerr = ar.ComputedCRC()
+				parsed, perr = ar.ParsedCRC()
+			}
 			cs, ps := fmt.Sprint(comp), fmt.Sprint(parsed)
 			if cerr != nil {
 				cs = "err:" + classify(cerr)
